@@ -198,6 +198,8 @@ fn cmd_run(args: &[String]) -> i32 {
     let mut sched_hashes: HashSet<u64> = HashSet::new();
     let mut samples = Vec::new();
     let mut violations = Vec::new();
+    let mut clause_counts: BTreeMap<String, u64> = BTreeMap::new();
+    let mut violating_runs = 0u64;
     let mut index = worker;
     let mut stopped_by_time = false;
     let mut digests = std::env::var("KMSIM_DIGESTS")
@@ -302,17 +304,17 @@ fn cmd_run(args: &[String]) -> i32 {
             samples.push(describe(&case));
         }
         if let Some(v) = &o.violation {
-            let f = outdir.join(format!("viol_{worker}_{index}.json"));
-            let mut c = case.clone();
-            // keep the decisions that were actually taken with the case
-            c.params.insert(
-                "sched_origin".into(),
-                json!(format!("{}:{}:{}:{}", case.sched.kind, case.sched.seed, case.sched.a, case.sched.b)),
-            );
-            write_case_file(&f, &case, Some(v), trace_json(&o));
-            violations.push(json!({"index": index, "clause": v.clause, "detail": v.detail, "file": path_str(&f)}));
-            let _ = c;
-            if violations.len() as u64 >= max_viol {
+            // keep at most two cases per oracle clause and go on exploring: a
+            // violation that is a listed known finding must not hide another one
+            let seen = clause_counts.entry(v.clause.clone()).or_insert(0u64);
+            *seen += 1;
+            if *seen <= 2 {
+                let f = outdir.join(format!("viol_{worker}_{index}.json"));
+                write_case_file(&f, &case, Some(v), trace_json(&o));
+                violations.push(json!({"index": index, "clause": v.clause, "detail": v.detail, "file": path_str(&f)}));
+            }
+            violating_runs += 1;
+            if violations.len() as u64 >= max_viol * 4 || violating_runs >= 200 {
                 break;
             }
         }
